@@ -107,13 +107,13 @@ def excluded_datauri(u, reg):
     if not b64 and b'&' in raw:
         return 'K5a literal & in a percent-form payload'
     segs = [s.strip(WS) for s in mt.split(b';')]
+    if any(x.strip(WS) == b'base64' for s in segs for x in s.split(b'=')):
+        return 'K4 base64 token that is not the final ;base64 marker'
     if segs[0] == b'' and any(s and s.lower().replace(b' ', b'') != b'charset=us-ascii' for s in segs[1:]):
         return 'K2 parameters after an omitted media type'
     t = segs[0].lower()
     if t.startswith(b'text/plain') and len(t) > len(b'text/plain'):
         return 'K3 type that merely starts with text/plain'
-    if any(x.strip(WS) == b'base64' for s in segs for x in s.split(b'=')):
-        return 'K4 base64 token that is not the final ;base64 marker'
     return None
 
 
